@@ -92,7 +92,7 @@ PROPS = {
             "Sketch and the hasher are opaque for the Policy proof (any frequency estimate is safe); sketch.rs itself is verified for index/overflow safety under `global size_of usize == 8`",
             "BloomFilter::clear and CountMinSketch::reset use iter_mut (no usable Verus model): contract trusted in Verus, checked by Kani on one word",
             "Policy::new (f64 arithmetic) is not under contract: the invariant's capacity relations are a precondition",
-            "dispatcher (tiny_lfu.rs process_write / process_message): proved that every message is delivered to its handler with its own key whatever the storage map answers (struct stand-in TinyLFUInner: storage is opaque with arbitrary query results; remove_closure is external with the relation owner_answers); process_policy_message (buffer pop / drain loops), try_maintenance and the buffers themselves are not under contract",
+            "dispatcher (tiny_lfu.rs process_write / process_message): proved that every message is delivered to its handler with its own key whatever the storage map answers (struct stand-in TinyLFUInner: storage is opaque with arbitrary query results; remove_closure is external with the relation owner_answers); process_policy_message (the whole maintenance pass: pop loop, drained read hits, Poll-mode trim) keeps the policy invariant and parks only keys the owner refused to give up, for any contents of the (opaque, concurrently filled) buffers -- its termination is not verified (other threads keep pushing); try_maintenance and the buffers themselves are not under contract; ReadBuffer::drain is a stand-in returning a Vec instead of `impl Iterator`",
             "concurrency is NOT decided: write_buffer/read_buffer lag between storage map and policy, DedicatedThread mode, the lock-table sentence of the property (query_lock_manager.rs)",
         ],
     },
@@ -125,8 +125,8 @@ PROPS = {
              "bound": "none: full-domain symbolic input, loops unrolled to operand width with unwinding assertions"},
         ],
         "native": [
-            {"name": "real_backends_scan_and_point_reads", "bin": "replay_c11", "crate": "replay_db", "release": False, "tiers": ("thorough",), "thorough_seeds": 3, "timeout": 5400,
-             "bound": "the REAL RocksDB and Fjall backends (temporary directories): seeded random batches over prefix-related / empty / 0xFF-heavy / >32-bit keys, wide columns with both discriminant encodings and key-of-set columns, point reads and member scans compared with a reference map, before and after reopen; 3 seeds (builds RocksDB: about 3 minutes cold)"},
+            {"name": "real_backends_scan_and_point_reads", "bin": "replay_c11", "crate": "replay_db", "release": False, "tiers": ("quick", "thorough"), "thorough_seeds": 6, "timeout": 5400,
+             "bound": "the REAL RocksDB and Fjall backends (temporary directories): seeded random batches over prefix-related / empty / 0xFF-heavy / >32-bit keys, wide columns with both discriminant encodings and key-of-set columns, point reads and member scans compared with a reference map, before and after reopen; 1 seed in the quick tier, 6 in the thorough tier (builds RocksDB: about 3 minutes cold, 1 s warm)"},
         ],
         "witness": witness.c11,
         "assumptions": [
@@ -156,7 +156,7 @@ PROPS = {
         "assumptions": [
             "integers in Verus specifications are mathematical; machine ranges appear explicitly in requires/typing",
             "Encoder/Decoder trait contracts: generic impls are verified against ANY implementor that satisfies them; that PostcardEncoder<W>/PostcardDecoder<R> do is proved in unit c12_leaf (every emit_*/read_* except f32/f64, all four LEB128 encoders and readers with loop invariants, zigzag by bit-vector reasoning, for every value and every tail) and re-established independently on the compiled code by the Kani harnesses (full domain, per width)",
-            "c12_leaf: std::io::Write is modelled as an appending writer (Vec<u8>/Cursor<Vec<u8>>), std::io::Read as a RELIABLE in-memory reader (read_exact succeeds iff enough bytes remain, as for &[u8]/Cursor): an I/O error of the underlying stream is outside the property; PostcardDecoder::read_byte (3 lines over read_exact(&mut [u8;1])) carries its contract as external_body; emit_f32/f64, read_f32/f64 are not in the Verus unit (Kani rt_f32/rt_f64)",
+            "c12_leaf: std::io::Write is modelled as an appending writer (Vec<u8>/Cursor<Vec<u8>>), std::io::Read as a RELIABLE in-memory reader (read_exact succeeds iff enough bytes remain, as for &[u8]/Cursor): an I/O error of the underlying stream is outside the property; read_exact succeeds iff enough bytes remain and what it leaves behind after a failure is unspecified (as in std); emit_f32/f64, read_f32/f64 are not in the Verus unit (Kani rt_f32/rt_f64)",
             "Plugin and Session are opaque: no impl under contract looks inside them",
             "std collection / wrapper models listed in trusted_base (Cell, Duration, Vec::into_boxed_slice, Arc/Rc<[T]>::from(Vec), u8::from(bool), char::from_u32)",
             "decode contract is completeness on the encoder's image + exact consumption + image equality (w.bytes()==v.bytes()); value equality follows from injectivity of the image, proved for the primitive leaves (lemma_inj_*) and structural for the constructors",
